@@ -12,6 +12,8 @@ ASSUMPTIONS = ["boundary recombination is certified per executed result (all poi
 
 def run(ctx):
     rng, drv = ctx.rng, ctx.drv
+    from harness import degen
+    degen.evaluate(ctx, "region")      # deterministic non-transversal corpus (findings K2-*)
     n = 40 if ctx.quick else 1500
     for it in range(n):
         k = rng.choice([2, 2, 2, 3, 3, 4, 5])
